@@ -1,5 +1,6 @@
 """Worker side of C20: sessions of diagnostic plots over classes of processed chunks, one process each."""
 import os
+import copy
 import zlib
 import json
 import glob
@@ -88,9 +89,23 @@ def plot_session(sess):
     try:
         for k, a in enumerate(sess['calls']):
             rows, prms = class_scene(a['cls'], random.Random(f"{sess['seed']}:{a['cls']}:{a.get('var', 0)}"))
+            # the global dictionary at processing time and at plotting time need not be the same one: a chunk plots with what it
+            # was processed with ('run': step scaling of the heights set globally for the run only; 'plot': set globally for the
+            # plot only, together with other values that must not reach the figure)
+            gl = a.get('glob')
+            step = {'height_scale_mode': 'step-scale', 'height_scale_kwargs': {'steps': [3000, 8000], 'scales': [100, 500, 1000]}}
+            if gl == 'run':
+                dynamic.AMPYCLOUD_PRMS['SLICING_PRMS'].update(copy.deepcopy(step))
             with warnings.catch_warnings():
                 warnings.simplefilter('ignore')
                 ch = ampycloud.run(tracer.build_frame({'rows': rows}), prms=prms or None, geoloc='verif', ref_dt='2026-01-01')
+            if gl == 'run':
+                ampycloud.reset_prms()
+            elif gl == 'plot':
+                dynamic.AMPYCLOUD_PRMS['SLICING_PRMS'].update(copy.deepcopy(step))
+                dynamic.AMPYCLOUD_PRMS['MSA'] = 100
+                dynamic.AMPYCLOUD_PRMS['MAX_HITS_OKTA0'] = 50
+                dynamic.AMPYCLOUD_PRMS['GROUPING_PRMS']['height_pad_perc'] = 300
             sname = f'plot_{k}' + a.get('stemsuffix', '')
             stem = os.path.join(tmp, sname) if a['save'] else None
             fmts = a['fmts']
@@ -119,6 +134,9 @@ def plot_session(sess):
             e['figs_after'] = len(plt.get_fignums())
             if a['show']:
                 plt.close('all')
+            if gl:
+                ampycloud.reset_prms()
+            e['glob'] = gl or 'none'
             events.append(e)
     finally:
         os.chdir(cwd0)
